@@ -36,10 +36,6 @@ type result struct {
 	newCookie string // value of a session cookie set by the response
 }
 
-// hangBound is generous: a request that has not returned after this long is
-// reported together with a goroutine dump. Nothing in the request path sleeps.
-const hangBound = 120 * time.Second
-
 func drainPanics() (out []string) {
 	for {
 		select {
@@ -95,7 +91,7 @@ func execute(q reqSpec) result {
 	drainPanics()
 	rec := httptest.NewRecorder()
 	done := make(chan struct{})
-	go func() {
+	go func() { // the marker hangVerdict looks for is this function: c12.execute.func1
 		defer close(done)
 		mainHandler.ServeHTTP(rec, r)
 	}()
@@ -207,11 +203,53 @@ func (w *world) step(t fataler, q reqSpec) (result, outcome) {
 	return res, o
 }
 
+const requestMarker = "verifharness/c12.execute.func"
+
+// rawExec sends a request without judging the answer (only: it must return).
+func (w *world) rawExec(q reqSpec) result {
+	w.logRequest(q, "raw")
+	res := execute(q)
+	if !res.returned {
+		w.hangVerdict("the request "+q.String(), requestMarker)
+	}
+	if res.newCookie != "" {
+		w.sessNames = append(w.sessNames, res.newCookie)
+	}
+	return res
+}
+
 func (w *world) stepE(q reqSpec) (result, outcome, string) {
+	return w.stepMode(q, "checked")
+}
+
+func (w *world) stepMode(q reqSpec, mode string) (result, outcome, string) {
+	w.logRequest(q, mode)
+	// a presented key with an expiry: its state before and after the request
+	var exp time.Time
+	pkey, presented := presentedKey(q.Authz)
+	if presented {
+		if _, ok := w.keys[pkey]; ok {
+			exp = w.keyExp[pkey]
+		}
+	}
+	st0 := 1
+	if !exp.IsZero() {
+		st0 = keyState(exp, time.Now())
+	}
 	expected := w.decide(q)
 	res := execute(q)
 	if !res.returned {
-		return res, outcome{}, fmt.Sprintf("request did not return within %s: %s\n%s", hangBound, q, goroutineDump())
+		w.hangVerdict("the request "+q.String(), requestMarker)
+	}
+	if res.newCookie != "" {
+		w.sessNames = append(w.sessNames, res.newCookie)
+	}
+	if !exp.IsZero() {
+		if st1 := keyState(exp, time.Now()); st1 != st0 {
+			// the key crossed its expiry (margin) while the request ran: no verdict
+			stats.Class("discarded_key_expired_during_request")
+			return res, outcome{}, ""
+		}
 	}
 	if len(res.panics) > 0 {
 		return res, outcome{}, fmt.Sprintf("the server panicked while handling %s (dev=%v): %s\nresponse: status %d body %q; handler runs %d",
@@ -250,7 +288,38 @@ func (w *world) stepE(q reqSpec) (result, outcome, string) {
 			stats.Warn("a session cookie was issued although the authenticator returned no token (request %s)", q)
 		}
 	}
+	// ---- expiring keys: notes for a later hang verdict, and generator statistics
+	if matched.g.src != "" && presented && !w.dev && q.RemoteAddr != bridgeAddr && len(w.expiring) > 0 {
+		expired := !exp.IsZero() && st0 == -1
+		switch {
+		case w.importsSinceExp > 0:
+			if expired {
+				stats.Class("expiry:expired_key_presented_after_reimport")
+			}
+		default:
+			if w.expiredShown > 0 {
+				// the situation seeded change C12-4 needs: a further request that reaches the key table
+				stats.Class("expiry:authorization_request_after_expired_loaded_key_was_presented")
+			}
+			if expired {
+				w.expiredShown++
+				stats.Class("expiry:expired_key_still_loaded_presented")
+				w.notes = append(w.notes, fmt.Sprintf("history step %d presented the API key %q, which had expired at %s while it was loaded (no key import since); it was answered with status %d, handler runs %d",
+					len(w.ops), pkey, exp.Format(time.RFC3339Nano), res.status, res.runs))
+			}
+		}
+	}
 	return res, *matched, ""
+}
+
+// pastExpiry: has any of the keys configured with setKeysExpiring expired by now?
+func (w *world) pastExpiry() bool {
+	for _, e := range w.expiring {
+		if time.Now().After(e) {
+			return true
+		}
+	}
+	return false
 }
 
 func fmtToks(ts []*tok) string {
@@ -275,6 +344,10 @@ func (w *world) setDev(t fataler, on bool) {
 		t.Fatalf("harness: dev mode option reads %v after setting it to %v", cfgDev(), on)
 	}
 	w.dev = on
+	w.logOp(jop{Op: "dev", On: on})
+	if w.pastExpiry() {
+		w.importsSinceExp++ // the change event re-imports the keys
+	}
 }
 
 func sameStrings(a, b []string) bool {
@@ -304,8 +377,62 @@ func keyString(l []string) string { return strings.Join(l, "\x00") }
 // If that does not happen (bounded), it goes on and only notes it; the model
 // never depends on it (see syncKeys / stepStable).
 func (w *world) setKeys(t fataler, entries []string, expectCleanup bool) {
+	w.logOp(jop{Op: "keys", Entries: entries, Cleanup: expectCleanup})
+	w.expiring = nil
+	w.applyKeys(t, entries, expectCleanup)
+}
+
+// setKeysExpiring configures permanent entries plus entries that expire soon
+// (the expires parameter is written now, with fractional seconds). The keys are
+// imported while still valid and then expire *while loaded*: portbase drops
+// expired keys only at import time, checkAPIKey has to refuse them at request
+// time. It reports whether the import surely happened before any expiry.
+func (w *world) setKeysExpiring(t fataler, entries []string, expiring []expiringEntry) bool {
+	w.logOp(jop{Op: "keys", Entries: entries, Expiring: expiring})
+	all := append([]string{}, entries...)
+	w.expiring = nil
+	start := time.Now()
+	for _, e := range expiring {
+		exp := start.Add(time.Duration(e.AfterMs) * time.Millisecond).UTC()
+		sep := "?"
+		if strings.Contains(e.Entry, "?") {
+			sep = "&"
+		}
+		all = append(all, e.Entry+sep+"expires="+exp.Format("2006-01-02T15:04:05.000Z07:00"))
+		w.expiring = append(w.expiring, exp.Truncate(time.Millisecond))
+	}
+	w.applyKeys(t, all, false)
+	w.expiredShown, w.importsSinceExp = 0, 0
+	for _, exp := range w.expiring {
+		if time.Until(exp) < 2*expiryMargin {
+			return false
+		}
+	}
+	return true
+}
+
+// waitExpiry sleeps until every expiring key is past its expiry (plus margin).
+// Nothing is imported meanwhile: the keys stay in the API's table.
+func (w *world) waitExpiry() {
+	w.logOp(jop{Op: "wait_expiry"})
+	for _, exp := range w.expiring {
+		if d := time.Until(exp.Add(expiryMargin + 40*time.Millisecond)); d > 0 {
+			time.Sleep(d)
+		}
+	}
+}
+
+func (w *world) cleanSessions() {
+	w.logOp(jop{Op: "clean"})
+	api.VerifCleanSessions()
+}
+
+func (w *world) applyKeys(t fataler, entries []string, expectCleanup bool) {
 	if err := config.SetConfigOption(api.CfgAPIKeys, entries); err != nil {
 		t.Fatalf("harness: cannot set api keys: %s", err)
+	}
+	if w.pastExpiry() {
+		w.importsSinceExp++
 	}
 	w.synced = "\x01never"
 	if expectCleanup && !cleanupMissing {
@@ -358,12 +485,18 @@ func (w *world) syncKeys() string {
 			time.Sleep(20 * time.Microsecond)
 			continue
 		}
-		api.VerifSyncAPIKeys()
+		before := time.Now()
+		w.importKeys()
 		if v2, s2 := settledKeys(); (v2 != v || !s2) && time.Now().Before(deadline) {
 			continue // changed under our feet, again
 		}
 		w.synced = v
-		w.keys = parseKeyEntries(cfgKeys(), time.Now())
+		// keys that expire between `before` and now may or may not have been imported;
+		// setKeysExpiring keeps every expiry at least 2 margins away from the import
+		w.keys, w.keyExp = parseKeyEntriesExp(cfgKeys(), before)
+		if w.pastExpiry() {
+			w.importsSinceExp++
+		}
 		return v
 	}
 }
@@ -377,7 +510,7 @@ func (w *world) stepStable(t fataler, q reqSpec) (res result, o outcome, ok bool
 		keysBefore := w.keys
 		sessBefore := cloneSessions(w.sessions)
 		var msg string
-		res, o, msg = w.stepE(q)
+		res, o, msg = w.stepMode(q, "stable")
 		if v2, settled := settledKeys(); v2 != v1 || !settled {
 			// the configuration changed while the request ran: not a valid observation
 			stats.Class("discarded_config_changed_during_request")
@@ -394,7 +527,7 @@ func (w *world) stepStable(t fataler, q reqSpec) (res result, o outcome, ok bool
 			continue
 		}
 		if msg != "" {
-			t.Fatalf("%s\n[diagnostics] configured (option) %q\n[diagnostics] configured (getter) %q\n[diagnostics] key table of the API now: %v", msg, trueKeys(), keyString(cfgKeys()), api.VerifAPIKeyTable())
+			t.Fatalf("%s\n[diagnostics] configured (option) %q\n[diagnostics] configured (getter) %q\n[diagnostics] key table of the API now: %v", msg, trueKeys(), keyString(cfgKeys()), keyTable())
 		}
 		return res, o, true
 	}
@@ -412,6 +545,7 @@ func cloneSessions(m map[string]*modelSession) map[string]*modelSession {
 
 // age makes all sessions d older, in portbase and in the model.
 func (w *world) age(d time.Duration) {
+	w.logOp(jop{Op: "age", Seconds: d.Seconds()})
 	api.VerifAgeSessions(d)
 	for _, s := range w.sessions {
 		s.lo -= d.Seconds()
